@@ -35,6 +35,8 @@ type Engine struct {
 	hookErr []string
 	files   map[string]string // contract file -> package path
 	sentinels map[*ssa.Global]int
+	lemmas    []*Contract
+	axiomNames []string
 }
 
 func loadEngine(repo string, specDir string, patterns []string) (*Engine, error) {
@@ -110,6 +112,7 @@ func loadEngine(repo string, specDir string, patterns []string) (*Engine, error)
 	e.bind()
 	e.scanGlobals()
 	theEngine = e
+	e.registerAxioms()
 	return e, nil
 }
 
@@ -388,6 +391,10 @@ func (e *Engine) bind() {
 			}
 			continue
 		}
+		if c.Kind == "lemmafn" {
+			e.lemmas = append(e.lemmas, c)
+			continue
+		}
 		// functions
 		pkg, fname, rt := c.Pkg, c.FnName, c.RecvType
 		if c.Lib {
@@ -484,4 +491,30 @@ func (e *Engine) fnByShort(short string) *ssa.Function {
 		}
 	}
 	return nil
+}
+
+// registerAxioms evaluates prelude axioms to SMT and registers them, triggered by the
+// uninterpreted spec functions they mention.
+func (e *Engine) registerAxioms() {
+	for _, a := range e.db.Axioms {
+		func() {
+			defer func() {
+				if r := recover(); r != nil {
+					e.db.Errors = append(e.db.Errors, fmt.Sprintf("axiom %s: %v", a.Name, r))
+				}
+			}()
+			st := &State{heaps: map[string]*HeapVer{}, epoch: "0"}
+			x := &Exec{eng: e}
+			env := &Env{x: x, st: st, vars: map[string]TV{}, lets: map[string]*Expr{}, pattern: a.Pat}
+			t := env.evalBool(a.E)
+			var trig []string
+			for _, m := range symRe.FindAllString(t.S, -1) {
+				if strings.HasPrefix(m, "sf_") || strings.HasPrefix(m, "lib_") {
+					trig = append(trig, m)
+				}
+			}
+			reg.addAxiom(a.Name, trig, "(assert "+t.S+")")
+			e.axiomNames = append(e.axiomNames, a.Name+": "+strings.TrimSpace(a.Text))
+		}()
+	}
 }
